@@ -482,18 +482,32 @@ func isQuotedByJSONString(t reflect.Type) bool {
 }
 
 func (g *Generator) generateCycleSchemaRef(t reflect.Type, schema *openapi3.Schema) *openapi3.SchemaRef {
+	return g.cycleSchemaRef(nil, t, schema)
+}
+
+// cycleSchemaRef unwraps pointers, slices and maps down to the type a component can be made of.
+// unwrapped holds the types unwrapped so far: a container type that is its own element type
+// (type Tree []Tree) is met again and described as "anything" there, which ends the unwrapping.
+func (g *Generator) cycleSchemaRef(unwrapped []reflect.Type, t reflect.Type, schema *openapi3.Schema) *openapi3.SchemaRef {
+	for _, u := range unwrapped {
+		if u == t {
+			return openapi3.NewSchemaRef("", openapi3.NewSchema())
+		}
+	}
+	unwrapped = append(unwrapped, t)
+
 	var typeName string
 	switch t.Kind() {
 	case reflect.Ptr:
-		return g.generateCycleSchemaRef(t.Elem(), schema)
+		return g.cycleSchemaRef(unwrapped, t.Elem(), schema)
 	case reflect.Slice:
-		ref := g.generateCycleSchemaRef(t.Elem(), schema)
+		ref := g.cycleSchemaRef(unwrapped, t.Elem(), schema)
 		sliceSchema := openapi3.NewSchema()
 		sliceSchema.Type = &openapi3.Types{"array"}
 		sliceSchema.Items = ref
 		return openapi3.NewSchemaRef("", sliceSchema)
 	case reflect.Map:
-		ref := g.generateCycleSchemaRef(t.Elem(), schema)
+		ref := g.cycleSchemaRef(unwrapped, t.Elem(), schema)
 		mapSchema := openapi3.NewSchema()
 		mapSchema.Type = &openapi3.Types{"object"}
 		mapSchema.AdditionalProperties = openapi3.AdditionalProperties{Schema: ref}
